@@ -139,7 +139,8 @@ struct Op {
 
 struct Pass {
     name: &'static str,
-    /// op names left out of the alphabet
+    /// op names left out of the alphabet (or, if `only` is non-empty, the alphabet itself)
+    only: Vec<&'static str>,
     without: Vec<&'static str>,
     depth_quick: usize,
     depth_thorough: usize,
@@ -211,7 +212,16 @@ fn cross(doms: &[Vec<V>]) -> Vec<Row> {
     out
 }
 fn std_passes(dq: usize, dt: usize) -> Vec<Pass> {
-    vec![Pass { name: "full", without: vec![], depth_quick: dq, depth_thorough: dt }]
+    vec![Pass { name: "full", only: vec![], without: vec![], depth_quick: dq, depth_thorough: dt }]
+}
+/// full alphabet to (dq, dt) plus a thorough-only pass one step deeper over a reduced alphabet
+fn deep_passes(dq: usize, dt: usize, without: &[&'static str]) -> Vec<Pass> {
+    vec![Pass { name: "full", only: vec![], without: vec![], depth_quick: dq, depth_thorough: dt }, Pass { name: "deep", only: vec![], without: without.to_vec(), depth_quick: 0, depth_thorough: dt + 1 }]
+}
+/// quick-tier pass over a handful of ops, deep enough for the 4/5-step patterns (delete-then-reinsert,
+/// BEGIN..ROLLBACK around a key update, child deleted before its parent)
+fn core_pass(only: &[&'static str], dq: usize, dt: usize) -> Pass {
+    Pass { name: "core", only: only.to_vec(), without: vec![], depth_quick: dq, depth_thorough: dt }
 }
 
 /// planted perturbations of the REAL side only (self test of the harness; `--opt plant=<name>`)
@@ -219,7 +229,7 @@ fn plant(ctx_plant: Option<&str>, name: &str) -> bool {
     ctx_plant == Some(name)
 }
 
-fn key_scenario(name: &str, ddl: &str, def: TableDef, decls: Vec<Decl>, k1: V, k2: V, nullable: bool, dq: usize, dt: usize) -> Scenario {
+fn key_scenario(name: &str, ddl: &str, def: TableDef, decls: Vec<Decl>, k1: V, k2: V, nullable: bool, lite: bool, passes: Vec<Pass>) -> Scenario {
     // t(<key> .., a INT): key column is column 0 named `k`
     let l = |v: &V| format!("#{}", vshow(v));
     let mut ops = vec![
@@ -241,21 +251,15 @@ fn key_scenario(name: &str, ddl: &str, def: TableDef, decls: Vec<Decl>, k1: V, k
         ops.push(op("updkeynull1", &format!("updkey(null>{})", l(&k1)), "update-key", upd("t", "k", k1.clone(), col_eq("k", V::Null))));
         ops.push(op("delnull", "del(null)", "delete", del("t", col_eq("k", V::Null))));
     }
-    ops.extend(txn_ops(true));
-    Scenario {
-        name: name.to_string(),
-        ddl: vec![ddl.to_string()],
-        defs: vec![def],
-        decls,
-        tables: vec!["t"],
-        ops,
-        passes: std_passes(dq, dt),
-        domain_rows: vec![],
+    ops.extend(txn_ops(!lite));
+    if lite {
+        ops.retain(|o| !["updkey11", "updkey22", "updkeyall1", "del2"].contains(&o.name.as_str()));
     }
+    Scenario { name: name.to_string(), ddl: vec![ddl.to_string()], defs: vec![def], decls, tables: vec!["t"], ops, passes, domain_rows: vec![] }
 }
 
 /// one-column CHECK scenario `t(a <ty> <CHECK>)`; `table_level` puts the CHECK after the column list
-fn check_scenario(form: &'static str, ty: Ty, expr: E::Expr, f: CheckFn, values: Vec<V>, table_level: bool, dq: usize, dt: usize, real_form: Option<&str>) -> Scenario {
+fn check_scenario(form: &'static str, ty: Ty, expr: E::Expr, f: CheckFn, values: Vec<V>, table_level: bool, passes: Vec<Pass>, real_form: Option<&str>) -> Scenario {
     let compact: String = form.chars().filter(|c| *c != ' ').collect();
     let name = format!("check-{}[{}]{}", if table_level { "table" } else { "col" }, compact, if ty == Ty::Real { "real" } else { "" });
     let real = real_form.unwrap_or(form);
@@ -276,16 +280,20 @@ fn check_scenario(form: &'static str, ty: Ty, expr: E::Expr, f: CheckFn, values:
     ops.push(op("delall", "del(all)", "delete", del("t", None)));
     ops.extend(txn_ops(false));
     let domain_rows = vec![("t", cross(&[values.clone()]))];
-    Scenario { name, ddl: vec![ddl], defs: vec![def], decls: vec![Decl::Check { table: "t", form, f }], tables: vec!["t"], ops, passes: std_passes(dq, dt), domain_rows }
+    Scenario { name, ddl: vec![ddl], defs: vec![def], decls: vec![Decl::Check { table: "t", form, f }], tables: vec!["t"], ops, passes, domain_rows }
 }
 
-fn fk_scenario(name: &str, clause: &str, od: Option<OnDelete>, dq: usize, dt: usize, fk_off: bool) -> Scenario {
+fn fk_scenario(name: &str, clause: &str, od: Option<OnDelete>, passes: Vec<Pass>, fk_off: bool) -> Scenario {
     let mut ddl = vec![];
     if fk_off {
         ddl.push("PRAGMA foreign_keys = OFF".to_string());
     }
     ddl.push("CREATE TABLE p (id INT PRIMARY KEY)".to_string());
-    ddl.push(format!("CREATE TABLE c (pid INT REFERENCES p(id){clause}, x INT)"));
+    if name == "fk-table-level" {
+        ddl.push(format!("CREATE TABLE c (pid INT, x INT, FOREIGN KEY (pid) REFERENCES p(id){clause})"));
+    } else {
+        ddl.push(format!("CREATE TABLE c (pid INT REFERENCES p(id){clause}, x INT)"));
+    }
     let p = TableDef::new("p").col(ColumnDef::new("id", Ty::Int).primary_key());
     // no ON DELETE clause = NO ACTION: the delete of a referenced parent is refused (as RESTRICT)
     let c = TableDef::new("c").col(ColumnDef::new("pid", Ty::Int).references("p", "id", od.unwrap_or(OnDelete::Restrict))).col(ColumnDef::new("x", Ty::Int));
@@ -312,7 +320,7 @@ fn fk_scenario(name: &str, clause: &str, od: Option<OnDelete>, dq: usize, dt: us
         decls: vec![Decl::Key { table: "p", cols: vec![0], pk: true }, Decl::Fk { child: "c", col: 0, parent: "p", pcol: 0 }],
         tables: vec!["c", "p"],
         ops,
-        passes: std_passes(dq, dt),
+        passes,
         domain_rows: vec![],
     }
 }
@@ -331,8 +339,12 @@ fn scenarios(plant_opt: Option<&str>) -> Vec<Scenario> {
         i(1),
         i(10),
         false,
-        3,
-        5,
+        false,
+        {
+            let mut p = deep_passes(3, 4, &["updkeyall1", "insnull", "commit"]);
+            p.push(core_pass(&["ins1", "ins2", "updkey12", "del1", "begin", "rollback"], 5, 6));
+            p
+        },
     ));
     v.push(key_scenario(
         "pk-text",
@@ -342,8 +354,8 @@ fn scenarios(plant_opt: Option<&str>) -> Vec<Scenario> {
         t("x"),
         t("y"),
         false,
-        3,
-        4,
+        true,
+        std_passes(3, 4),
     ));
     // ---- UNIQUE (NULLs allowed, never collide) ----------------------------------
     v.push(key_scenario(
@@ -354,8 +366,12 @@ fn scenarios(plant_opt: Option<&str>) -> Vec<Scenario> {
         i(1),
         i(10),
         true,
-        3,
-        5,
+        false,
+        {
+            let mut p = deep_passes(3, 4, &["updkeyall1", "updkey22", "updkey11", "updkey21", "del2", "commit"]);
+            p.push(core_pass(&["ins1", "insnull", "updkey12", "del1", "begin", "rollback"], 4, 6));
+            p
+        },
     ));
     v.push(key_scenario(
         "unique-text",
@@ -365,8 +381,8 @@ fn scenarios(plant_opt: Option<&str>) -> Vec<Scenario> {
         t("x"),
         t("y"),
         true,
-        3,
-        4,
+        true,
+        std_passes(3, 4),
     ));
     {
         // table-level composite UNIQUE (u, v): partial NULL keys never collide
@@ -422,7 +438,7 @@ fn scenarios(plant_opt: Option<&str>) -> Vec<Scenario> {
             decls: vec![Decl::Key { table: "t", cols: vec![0], pk: true }, Decl::NotNull { table: "t", col: 1 }],
             tables: vec!["t"],
             ops,
-            passes: std_passes(3, 5),
+            passes: if default.is_none() && ty == Ty::Int { std_passes(3, 5) } else { std_passes(3, 4) },
             domain_rows: vec![],
         });
     }
@@ -432,24 +448,24 @@ fn scenarios(plant_opt: Option<&str>) -> Vec<Scenario> {
     let n = |f: fn(f64) -> bool| -> CheckFn { Box::new(move |r: &[V]| num(&r[0]).map(f)) };
     let weak = plant(plant_opt, "check-weaker");
     let strong = plant(plant_opt, "check-stronger");
-    v.push(check_scenario("a > 0", Ty::Int, E::gt(a(), E::int(0)), n(|x| x > 0.0), ints(), false, 3, 5, if weak { Some("a >= 0") } else if strong { Some("a > 1") } else { None }));
-    v.push(check_scenario("a >= 0 AND a < 10", Ty::Int, E::and(E::ge(a(), E::int(0)), E::lt(a(), E::int(10))), n(|x| x >= 0.0 && x < 10.0), ints(), false, 3, 5, None));
-    v.push(check_scenario("a < 10", Ty::Int, E::lt(a(), E::int(10)), n(|x| x < 10.0), ints(), false, 3, 4, None));
-    v.push(check_scenario("a <= 1", Ty::Int, E::le(a(), E::int(1)), n(|x| x <= 1.0), ints(), false, 3, 4, None));
-    v.push(check_scenario("a > -1", Ty::Int, E::gt(a(), E::int(-1)), n(|x| x > -1.0), ints(), false, 3, 4, None));
-    v.push(check_scenario("a > 0 OR a < -5", Ty::Int, E::or(E::gt(a(), E::int(0)), E::lt(a(), E::int(-5))), n(|x| x > 0.0 || x < -5.0), ints(), false, 3, 4, None));
-    v.push(check_scenario("a = 1", Ty::Int, E::eq(a(), E::int(1)), n(|x| x == 1.0), ints(), false, 3, 4, None));
-    v.push(check_scenario("a <> 0", Ty::Int, E::ne(a(), E::int(0)), n(|x| x != 0.0), ints(), false, 3, 4, None));
-    v.push(check_scenario("0 < a", Ty::Int, E::lt(E::int(0), a()), n(|x| 0.0 < x), ints(), false, 3, 4, None));
-    v.push(check_scenario("a IN (1, 2)", Ty::Int, E::in_list(a(), vec![E::int(1), E::int(2)]), n(|x| x == 1.0 || x == 2.0), ints(), false, 3, 4, None));
-    v.push(check_scenario("a BETWEEN 1 AND 5", Ty::Int, E::between(a(), E::int(1), E::int(5)), n(|x| x >= 1.0 && x <= 5.0), ints(), false, 3, 4, None));
-    v.push(check_scenario("a + 1 > 1", Ty::Int, E::gt(E::add(a(), E::int(1)), E::int(1)), n(|x| x + 1.0 > 1.0), ints(), false, 3, 4, None));
+    v.push(check_scenario("a > 0", Ty::Int, E::gt(a(), E::int(0)), n(|x| x > 0.0), ints(), false, deep_passes(3, 4, &["ins_-1", "ins_10", "upd_-1", "upd_10"]), if weak { Some("a >= 0") } else if strong { Some("a > 1") } else { None }));
+    v.push(check_scenario("a >= 0 AND a < 10", Ty::Int, E::and(E::ge(a(), E::int(0)), E::lt(a(), E::int(10))), n(|x| x >= 0.0 && x < 10.0), ints(), false, deep_passes(3, 4, &["ins_-1", "ins_10", "upd_-1", "upd_10"]), None));
+    v.push(check_scenario("a < 10", Ty::Int, E::lt(a(), E::int(10)), n(|x| x < 10.0), ints(), false, std_passes(2, 4), None));
+    v.push(check_scenario("a <= 1", Ty::Int, E::le(a(), E::int(1)), n(|x| x <= 1.0), ints(), false, std_passes(2, 4), None));
+    v.push(check_scenario("a > -1", Ty::Int, E::gt(a(), E::int(-1)), n(|x| x > -1.0), ints(), false, std_passes(2, 4), None));
+    v.push(check_scenario("a > 0 OR a < -5", Ty::Int, E::or(E::gt(a(), E::int(0)), E::lt(a(), E::int(-5))), n(|x| x > 0.0 || x < -5.0), ints(), false, std_passes(2, 4), None));
+    v.push(check_scenario("a = 1", Ty::Int, E::eq(a(), E::int(1)), n(|x| x == 1.0), ints(), false, std_passes(2, 4), None));
+    v.push(check_scenario("a <> 0", Ty::Int, E::ne(a(), E::int(0)), n(|x| x != 0.0), ints(), false, std_passes(2, 4), None));
+    v.push(check_scenario("0 < a", Ty::Int, E::lt(E::int(0), a()), n(|x| 0.0 < x), ints(), false, std_passes(2, 4), None));
+    v.push(check_scenario("a IN (1, 2)", Ty::Int, E::in_list(a(), vec![E::int(1), E::int(2)]), n(|x| x == 1.0 || x == 2.0), ints(), false, std_passes(2, 4), None));
+    v.push(check_scenario("a BETWEEN 1 AND 5", Ty::Int, E::between(a(), E::int(1), E::int(5)), n(|x| x >= 1.0 && x <= 5.0), ints(), false, std_passes(2, 4), None));
+    v.push(check_scenario("a + 1 > 1", Ty::Int, E::gt(E::add(a(), E::int(1)), E::int(1)), n(|x| x + 1.0 > 1.0), ints(), false, std_passes(2, 4), None));
     // table-level spelling of the simplest form
-    v.push(check_scenario("a > 0", Ty::Int, E::gt(a(), E::int(0)), n(|x| x > 0.0), ints(), true, 3, 4, None));
+    v.push(check_scenario("a > 0", Ty::Int, E::gt(a(), E::int(0)), n(|x| x > 0.0), ints(), true, std_passes(2, 4), None));
     // REAL column (floats are written only here)
-    v.push(check_scenario("a > 0", Ty::Real, E::gt(a(), E::int(0)), n(|x| x > 0.0), vec![V::Null, V::Float(-1.0), V::Float(0.0), V::Float(1.5), V::Float(10.0)], false, 3, 4, None));
+    v.push(check_scenario("a > 0", Ty::Real, E::gt(a(), E::int(0)), n(|x| x > 0.0), vec![V::Null, V::Float(-1.0), V::Float(0.0), V::Float(1.5), V::Float(10.0)], false, std_passes(2, 4), None));
     // TEXT column
-    v.push(check_scenario("a <> 'x'", Ty::Text, E::ne(a(), E::text("x")), Box::new(|r: &[V]| txt(&r[0]).map(|s| s != "x")), vec![V::Null, t("x"), t("y")], false, 3, 5, None));
+    v.push(check_scenario("a <> 'x'", Ty::Text, E::ne(a(), E::text("x")), Box::new(|r: &[V]| txt(&r[0]).map(|s| s != "x")), vec![V::Null, t("x"), t("y")], false, std_passes(3, 5), None));
     // ---- CHECK over two columns: column-level on `a` and table-level ---------------
     for table_level in [false, true] {
         let vals = vec![V::Null, i(0), i(1)];
@@ -460,6 +476,9 @@ fn scenarios(plant_opt: Option<&str>) -> Vec<Scenario> {
         let mut ops = vec![];
         for x in &vals {
             for y in &vals {
+                if (*x == i(1) && *y == i(1)) || (x.is_null() && *y == i(0)) || (*x == i(0) && y.is_null()) {
+                    continue; // same classes as (0,0), (NULL,1), (1,NULL)
+                }
                 let cls = match f(&[x.clone(), y.clone()]) {
                     Some(true) => "sat",
                     Some(false) => "viol",
@@ -489,15 +508,16 @@ fn scenarios(plant_opt: Option<&str>) -> Vec<Scenario> {
             decls: vec![Decl::Check { table: "t", form: "a > b", f }],
             tables: vec!["t"],
             ops,
-            passes: std_passes(3, 4),
+            passes: std_passes(2, 4),
             domain_rows: vec![("t", cross(&[vals.clone(), vals.clone()]))],
         });
     }
     // ---- FOREIGN KEY -----------------------------------------------------------
     let fk_off = plant(plant_opt, "fk-off");
-    v.push(fk_scenario("fk-restrict", " ON DELETE RESTRICT", Some(OnDelete::Restrict), 3, 5, fk_off));
-    v.push(fk_scenario("fk-cascade", " ON DELETE CASCADE", Some(OnDelete::Cascade), 3, 5, fk_off));
-    v.push(fk_scenario("fk-noaction", "", None, 3, 4, fk_off));
+    v.push(fk_scenario("fk-restrict", " ON DELETE RESTRICT", Some(OnDelete::Restrict), { let mut p = deep_passes(3, 4, &["insc2", "updcx1", "truncp"]); p.push(core_pass(&["insp1", "insc1", "delc1", "delp1", "begin", "rollback"], 4, 6)); p }, fk_off));
+    v.push(fk_scenario("fk-cascade", " ON DELETE CASCADE", Some(OnDelete::Cascade), { let mut p = deep_passes(3, 4, &["insc2", "updcx1", "truncp"]); p.push(core_pass(&["insp1", "insc1", "delc1", "delp1", "begin", "rollback"], 4, 6)); p }, fk_off));
+    v.push(fk_scenario("fk-noaction", "", None, std_passes(3, 4), fk_off));
+    v.push(fk_scenario("fk-table-level", " ON DELETE RESTRICT", Some(OnDelete::Restrict), std_passes(2, 3), fk_off));
     v
 }
 
@@ -974,8 +994,11 @@ impl Check for C09 {
                 }
             }
             for p in &sc.passes {
-                let allowed: Vec<usize> = (0..sc.ops.len()).filter(|&i| !p.without.contains(&sc.ops[i].name.as_str())).collect();
+                let allowed: Vec<usize> = (0..sc.ops.len()).filter(|&i| !p.without.contains(&sc.ops[i].name.as_str()) && (p.only.is_empty() || p.only.contains(&sc.ops[i].name.as_str()))).collect();
                 let maxd = ctx.tier.pick(p.depth_quick, p.depth_thorough);
+                if maxd == 0 || ctx.opt("pass").map_or(false, |x| x != p.name) {
+                    continue;
+                }
                 bounds.insert(format!("{}/{}", sc.name, p.name), json!({"alphabet": allowed.len(), "depth": maxd}));
                 let mut prefix = vec![];
                 w.dfs(si, sc, &allowed, &mut prefix, false, maxd, true);
